@@ -699,16 +699,23 @@ def rule_hasattr(run):
         def __init__(self):
             self.s = 1
 
+    class Dynamic:
+        def __getattr__(self, name):
+            if name == "dyn":
+                return 1
+            raise AttributeError(name)
+
     inst = Derived()
     inst.field = 3
     samples = [
+        ("__getattr__ attribute", Dynamic(), "dyn"), ("__getattr__ missing", Dynamic(), "nope"),
         ("instance.__dict__", inst, "field"), ("instance->class", inst, "own"), ("instance->base", inst, "WIDTH"), ("instance->method", inst, "method"),
         ("instance missing", inst, "nope"), ("class own", Derived, "own"), ("class inherited", Derived, "WIDTH"), ("class inherited method", Derived, "method"),
         ("class metaclass", Derived, "meta_attr"), ("class missing", Derived, "nope"), ("slots", Slots(), "s"), ("slots missing", Slots(), "t"),
         ("int", 5, "real"), ("int missing", 5, "nope"), ("str", "x", "upper"), ("None missing", None, "nope"), ("tuple", (1, 2), "count"),
     ]
     for label, obj, name in samples:
-        prims = {"hasattr": hasattr, "vars": vars, "type": type, "int": int, "getattr": getattr,
+        prims = {"hasattr": hasattr, "vars": vars, "type": type, "int": int, "getattr": getattr, "object": object,
                  "isinstance": lambda v, t: isinstance(v, t) if isinstance(t, (type, tuple)) else False, "_MergedBranch": _MB}
         it = Interp(vb, prims)
 
@@ -872,6 +879,18 @@ def rule_loop_scope(run):
     up = prep.func("PrepareAst.Target.unpack")
     setters = sorted({c.func.attr for c in calls_in(up.node) if isinstance(c.func, ast.Attribute) and dotted(c.func.value) == "self.converter"})
     run.ob(setters == ["set_local"], "PrepareAst.Target.unpack", file=prep.rel, line=up.node.lineno, detail="binds-with-set_local", expected="self.converter.set_local(name, value)", found=str(setters))
+    # a target never silently re-binds a name of the enclosing function (CPython gives a comprehension its own scope; the
+    # tracer has one scope per function and therefore REJECTS the reuse, at every nesting depth of the target): set_local
+    # itself refuses a bound name, unconditionally
+    sl = prep.func("PrepareAst.set_local")
+    from ..astutil import unconditional_stmt
+    params = [a.arg for a in sl.node.args.args]
+    nm = params[1] if len(params) > 1 else "name"
+    guard = unconditional_stmt(sl.node, lambda st: isinstance(st, ast.Assert) and P.T(st.test) == f"self._scope[{nm}] is _Unbound")
+    store = [a for a in walk_local(sl.node) if isinstance(a, ast.Assign) and P.T(a.targets[0]) == f"self._scope[{nm}]"]
+    ok = guard is not None and bool(store) and guard.lineno < store[0].lineno
+    run.ob(ok, "PrepareAst.set_local", file=prep.rel, line=sl.node.lineno, detail="refuses-bound-name", expected=f"assert self._scope[{nm}] is _Unbound before the name is bound",
+           found="ok" if ok else "a bound name is overwritten silently (a nested tuple target of a comprehension re-binds a variable of the enclosing function)")
     run.end()
 
 
